@@ -8,7 +8,7 @@ from sa.callgraph import CallGraph
 from rules import engine as E
 from rules.C03 import DBModel, DB
 
-UNITS = ["lib/Core/SQLiteBuildDB.cpp", "lib/Core/BuildEngine.cpp"]
+UNITS = ["lib/Core/SQLiteBuildDB.cpp", "lib/Core/BuildEngine.cpp", "products/libllbuild/BuildDB-C-API.cpp"]
 THOROUGH_ALL_UNITS = False
 EXPLANATION = (
     "All mutating SQL is executed by a frozen set of functions (rule-result insert, key insert, iteration update, schema "
@@ -190,6 +190,10 @@ def run(ctx):
     engine_txn_pairing(prog, r)
 
     E.r_epoch_persist(prog, rep)
+    # the exclusive begin and its error path, and the recreate-or-refuse decision, as C03 decides them (same file, same functions)
+    from sa.report import run_subset
+    from rules import C03
+    run_subset(C03, ctx, {"R-DB-EXCLUSIVE", "R-DB-VERSION"})
 
     r = rep.rule("R-DB-ATOMIC-COMMIT",
                  "nothing the database layer executes weakens SQLite's atomic commit: no PRAGMA journal_mode = OFF / MEMORY, no PRAGMA "
